@@ -87,6 +87,16 @@ CHECKS["C04"] = ("kv", "exploration",
     "deterministic probe; such capacities are excluded from the generator while it is listed as known.",
     "DESIGN.md 4/C04")
 
+CHECKS["C19"] = ("pure", "exploration",
+    "mutation of provider answers with 'rejected or semantically identical under an independent decode' (rapid) + deterministic single-field probes",
+    "Through a verif-tagged export of the stateless backend's pure verification functions: the recorded block/light-block pair and synthesized pairs are mutated at field, CBOR, protobuf and byte level "
+    "(34 operators: height, hash, time, state root fields, meta header, last commit), transaction lists and block results are dropped/added/reordered/altered or served for another height, validator sets "
+    "are altered, inclusion proofs are checked for every index pair of generated lists and under mutation, and metadata-transaction forgeries are tried. A mutant must be rejected or decode (independently) "
+    "to the identical content. Three defects found this way were repaired (last-commit height / block ID binding, nil result panic); six inherent unbound fields are known findings with probes.",
+    "Block.Size and result events are declared unverifiable by the code itself and only counted. verifyParameters and the light-client dependent wrappers (caches, queriers) are exercised only "
+    "through their pure comparison parts.",
+    "DESIGN.md 4/C19")
+
 NOT_APPLICABLE = {
 }
 
